@@ -73,6 +73,10 @@ def translate(row, sid, cfg=None):
             out.append(f"oHist {r['b']} {lst(r['hist'])}")
             if r['res'] == 'ok' and 'q' in r:
                 out.append(f"oAccepted {r['b']} {r['e']} {lst(r['q'])}")
+            if r['res'] == 'ok' and 'parent' in r:
+                out.append(f"oParent {p} {r['e']} {'-' if r['parent'] is None else r['parent']}")
+                if r.get('nchild') is not None and p.startswith('I'):
+                    out.append(f"oChildCount {p} {r['e']} {r['nchild']}")
             if r['res'] == 'ok' and not r['same']:
                 out.append('oIdentity dispatch-returned-another-object')
         elif k == 'take':
